@@ -49,8 +49,9 @@ type Step struct {
 	Prio    int32
 	Desc    bool
 	WithVal bool
-	Stop    int // visits: stop after Stop+1 deliveries (-1 never)
-	Big     int // Set: the value is padded to this many bytes (0: a short value)
+	Stop    int  // visits: stop after Stop+1 deliveries (-1 never)
+	Big     int  // Set: the value is padded to this many bytes (0: a short value)
+	Fixed   bool // Set: values of one fixed length (so that an overwrite keeps the item's size)
 }
 
 func (s Step) String() string {
@@ -71,6 +72,10 @@ type Program struct {
 	// CloseAtEnd closes the store after the final read (end-of-life balance checks).
 	CloseAtEnd bool
 	BigVals    int // number of Set steps with a value of 64 KiB or more
+	// YieldingCmp gives every collection a comparator that is bytes.Compare preceded by a yield
+	// point: under the deterministic scheduler every key comparison of every descent is a place
+	// where another worker can run (an application comparator may block or be slow).
+	YieldingCmp bool
 }
 
 // Event is one recorded client call.
@@ -84,6 +89,8 @@ type Event struct {
 	Seq       []model.KV
 	N, B      uint64
 	Snap      map[string][]model.KV
+	Snap2     map[string][]model.KV // the same snapshot read a second time, later
+	Mutated   string                // snapshot: a pinned node changed its unwritten item (hook walk)
 	Was       bool
 }
 
@@ -107,7 +114,13 @@ type History struct {
 	Flushes  []FlushRec
 	Panics   []string
 	Final    map[string][]model.KV // contents read after all workers finished
-	Hung     string
+	// Reopened: contents found by a second store on a copy of the file after one more Flush at
+	// quiescence (nil when not applicable); ReopenErr: why that failed.
+	Reopened  map[string][]model.KV
+	ReopenErr string
+	// Structural holds what Mode.AtQuiescence reported.
+	Structural []string
+	Hung       string
 }
 
 // Mode selects how the workers are run.
@@ -115,6 +128,9 @@ type Mode struct {
 	Sched    *sched.Sched       // nil = free running
 	Delay    func(point string) // free running: called at hooks / callbacks
 	Deadline time.Duration
+	// AtQuiescence, when set, runs after all workers have finished and before the final read
+	// (structural checks through the hooks); what it returns is recorded in History.Structural.
+	AtQuiescence func(colls map[string]*gkvlite.Collection, f *vfile.File) []string
 }
 
 type runner struct {
@@ -127,6 +143,8 @@ type runner struct {
 	f     *vfile.File
 	colls map[string]*gkvlite.Collection
 	tags  sync.Map // goid -> tag
+	// running is 1 while the worker programs execute
+	running int32
 }
 
 func (r *runner) now() int64 { return atomic.AddInt64(&r.tick, 1) }
@@ -143,6 +161,14 @@ func (r *runner) record(e Event) {
 	r.mu.Lock()
 	r.h.Events = append(r.h.Events, e)
 	r.mu.Unlock()
+}
+
+// cmp is the yielding comparator of Program.YieldingCmp (it only yields while the workers run).
+func (r *runner) cmp(a, b []byte) int {
+	if atomic.LoadInt32(&r.running) == 1 {
+		r.yield("cmp")
+	}
+	return bytes.Compare(a, b)
 }
 
 func (r *runner) setTag(t string) { r.tags.Store(sched.Goid(), t) }
@@ -169,6 +195,9 @@ func Run(p *Program, mode Mode) (*History, *vfile.File) {
 		if p.Callbacks != nil {
 			cb = *p.Callbacks
 		}
+		if p.YieldingCmp {
+			cb.KeyCompareForCollection = func(string) gkvlite.KeyCompare { return r.cmp }
+		}
 		if r.s != nil && p.Callbacks != nil {
 			r.s.Close() // release what the set-up store cached before re-opening
 		}
@@ -185,7 +214,11 @@ func Run(p *Program, mode Mode) (*History, *vfile.File) {
 	}
 	open()
 	for _, n := range p.Names {
-		c := r.s.SetCollection(n, nil)
+		var kc gkvlite.KeyCompare
+		if p.YieldingCmp {
+			kc = r.cmp
+		}
+		c := r.s.SetCollection(n, kc)
 		r.colls[n] = c
 		m := model.NewColl(model.CmpBytes)
 		for _, kv := range p.Initial[n] {
@@ -227,6 +260,7 @@ func Run(p *Program, mode Mode) (*History, *vfile.File) {
 		gkvlite.VerifSetPoint(func(name string) { mode.Sched.Yield(name) })
 		if r.f != nil {
 			r.f.Yield = func(k vfile.Kind) { mode.Sched.Yield("io:" + k.String()) }
+			r.f.YieldAfter = func(k vfile.Kind) { mode.Sched.Yield("io-done:" + k.String()) }
 		}
 	} else if mode.Delay != nil {
 		gkvlite.VerifSetPoint(func(name string) { mode.Delay(name) })
@@ -238,6 +272,7 @@ func Run(p *Program, mode Mode) (*History, *vfile.File) {
 		gkvlite.VerifSetPoint(nil)
 		if r.f != nil {
 			r.f.Yield = nil
+			r.f.YieldAfter = nil
 		}
 	}()
 	// ---- workers
@@ -253,6 +288,7 @@ func Run(p *Program, mode Mode) (*History, *vfile.File) {
 		progs = append(progs, mk(rs))
 	}
 	done := make(chan struct{})
+	atomic.StoreInt32(&r.running, 1)
 	if mode.Sched != nil {
 		for _, fn := range progs {
 			mode.Sched.Add(fn)
@@ -273,11 +309,15 @@ func Run(p *Program, mode Mode) (*History, *vfile.File) {
 	}
 	select {
 	case <-done:
+		atomic.StoreInt32(&r.running, 0)
 	case <-time.After(dl):
 		buf := make([]byte, 1<<20)
 		n := stackAll(buf)
 		r.h.Hung = string(buf[:n])
 		return r.h, r.f
+	}
+	if mode.AtQuiescence != nil {
+		r.h.Structural = mode.AtQuiescence(r.colls, r.f)
 	}
 	// ---- final contents (quiescent)
 	r.h.Final = map[string][]model.KV{}
@@ -287,6 +327,43 @@ func Run(p *Program, mode Mode) (*History, *vfile.File) {
 			r.h.Panics = append(r.h.Panics, "final read of "+n+": "+err.Error())
 		}
 		r.h.Final[n] = seq
+	}
+	// ---- one more Flush at quiescence, and what a second store finds on a copy of the file
+	if r.f != nil && p.Callbacks == nil && len(r.h.Panics) == 0 {
+		func() {
+			defer func() {
+				if pv := recover(); pv != nil {
+					r.h.Panics = append(r.h.Panics, fmt.Sprintf("final flush / re-open: %v", pv))
+				}
+			}()
+			r.setTag("Flush")
+			err := r.s.Flush()
+			r.setTag("")
+			if err != nil {
+				r.h.ReopenErr = "final Flush: " + err.Error()
+				return
+			}
+			s2, err := gkvlite.NewStore(vfile.FromBytes("conc-reopen", r.f.Bytes()))
+			if err != nil {
+				r.h.ReopenErr = "re-open after the final Flush: " + err.Error()
+				return
+			}
+			r.h.Reopened = map[string][]model.KV{}
+			for _, n := range p.Names {
+				c := s2.GetCollection(n)
+				if c == nil {
+					r.h.ReopenErr = "re-open after the final Flush: collection " + n + " is missing"
+					return
+				}
+				seq, err := fullRead(c)
+				if err != nil {
+					r.h.ReopenErr = "re-open after the final Flush: reading " + n + ": " + err.Error()
+					return
+				}
+				r.h.Reopened[n] = seq
+			}
+			s2.Close()
+		}()
 	}
 	if p.CloseAtEnd {
 		r.s.Close()
@@ -330,6 +407,9 @@ func (r *runner) worker(id int, steps []Step) {
 			if st.K == MSet {
 				valN++
 				val := []byte(fmt.Sprintf("w%d:%d", id, valN))
+				if st.Fixed {
+					val = []byte(fmt.Sprintf("w%d:%06d", id, valN))
+				}
 				if st.Big > len(val) {
 					pad := make([]byte, st.Big-len(val))
 					for i := range pad {
@@ -456,6 +536,20 @@ func (r *runner) worker(id int, steps []Step) {
 			ev.Call = r.now()
 			snap := r.s.Snapshot()
 			ev.Ret = r.now()
+			// A version that is pinned never changes: under the deterministic scheduler (one
+			// goroutine runs at a time, so the hook walk is not a race) the unwritten items of the
+			// snapshot's cached nodes are noted now and compared when the snapshot is released.
+			var unwritten map[uintptr]*gkvlite.Item
+			if r.mode.Sched != nil {
+				unwritten = map[uintptr]*gkvlite.Item{}
+				for _, n := range snap.GetCollectionNames() {
+					gkvlite.VerifWalk(snap.GetCollection(n), func(v gkvlite.VerifNode) {
+						if v.Item != nil && v.ItemOff == 0 && v.ItemLen == 0 {
+							unwritten[v.Addr] = v.Item
+						}
+					})
+				}
+			}
 			r.setTag("snap:Read")
 			ev.Snap = map[string][]model.KV{}
 			for _, n := range snap.GetCollectionNames() {
@@ -465,6 +559,25 @@ func (r *runner) worker(id int, steps []Step) {
 					ev.Err = err.Error()
 				}
 				ev.Snap[n] = seq
+			}
+			// ... and once more later: what a snapshot shows never changes
+			ev.Snap2 = map[string][]model.KV{}
+			for _, n := range snap.GetCollectionNames() {
+				r.yield("snapread")
+				seq, err := fullRead(snap.GetCollection(n))
+				if err != nil {
+					ev.Err = err.Error()
+				}
+				ev.Snap2[n] = seq
+			}
+			if unwritten != nil {
+				for _, n := range snap.GetCollectionNames() {
+					gkvlite.VerifWalk(snap.GetCollection(n), func(v gkvlite.VerifNode) {
+						if was, ok := unwritten[v.Addr]; ok && v.Item != nil && v.ItemOff == 0 && v.ItemLen == 0 && v.Item != was && ev.Mutated == "" {
+							ev.Mutated = fmt.Sprintf("collection %s: a node of the version the snapshot pinned held the unwritten item (%q,%q) when the snapshot was taken and holds the unwritten item (%q,%q) when it is released", n, was.Key, was.Val, v.Item.Key, v.Item.Val)
+						}
+					})
+				}
 			}
 			snap.Close()
 		}
@@ -555,11 +668,16 @@ func Check(p *Program, h *History, porcupineTimeout time.Duration) (fs []Finding
 			fs = append(fs, Finding{"C05/error-returned/flusher", "Flush returned error " + fl.Err})
 		}
 	}
+	if h.ReopenErr != "" {
+		fs = append(fs, Finding{"C05/final-flush-or-re-open-failed", h.ReopenErr})
+	}
 	for _, n := range p.Names {
 		vs := h.Versions[n]
 		st.Versions += len(vs)
 		if !kvsEqual(h.Final[n], vs[len(vs)-1].M.Sorted(), true) {
 			fs = append(fs, Finding{"C05/lost-update", fmt.Sprintf("collection %s: final contents %v differ from the result of applying all mutations %v", n, keys(h.Final[n]), keys(vs[len(vs)-1].M.Sorted()))})
+		} else if h.Reopened != nil && !kvsEqual(h.Reopened[n], vs[len(vs)-1].M.Sorted(), true) {
+			fs = append(fs, Finding{"C05/lost-update/after-final-flush-and-re-open", fmt.Sprintf("collection %s: after one more Flush at quiescence a second store on a copy of the file holds %v, the result of applying all mutations is %v", n, keys(h.Reopened[n]), keys(vs[len(vs)-1].M.Sorted()))})
 		}
 	}
 	if len(fs) > 0 {
@@ -605,6 +723,12 @@ func Check(p *Program, h *History, porcupineTimeout time.Duration) (fs []Finding
 					if kvsEqual(e.Snap[n], vs[i].M.Sorted(), true) {
 						ok = true
 					}
+				}
+				if e.Mutated != "" && n == p.Names[0] {
+					fs = append(fs, Finding{"C05/pinned-version-mutated", fmt.Sprintf("Snapshot() during [%d,%d]: %s", e.Call, e.Ret, e.Mutated)})
+				}
+				if e.Snap2 != nil && !kvsEqual(e.Snap[n], e.Snap2[n], true) {
+					fs = append(fs, Finding{"C05/snapshot-changed", fmt.Sprintf("Snapshot() during [%d,%d]: collection %s read through it twice: first %v, later %v", e.Call, e.Ret, n, keys(e.Snap[n]), keys(e.Snap2[n]))})
 				}
 				if !ok {
 					fs = append(fs, Finding{"C05/no-single-version/Snapshot", fmt.Sprintf("Snapshot() during [%d,%d]: collection %s read through it holds %v, no version current during the call has that", e.Call, e.Ret, n, keys(e.Snap[n]))})
